@@ -60,9 +60,21 @@ def rewrite(root_bytes, path, kind, rng):
     elif kind == 'bool':
         n.content = bytes([rng.choice([1, 2, 0x7f, 0x80, 0xfe])]); what = 'FF -> other non-zero BOOLEAN octet'
     else:
-        seg = dertree.Node(0x03 if kind == 'bits' else 0x04, [], False, content=n.content)
-        n.cons, n.kids, n.content = True, [seg], b''
-        what = 'primitive -> segmented string'
+        t = 0x03 if kind == 'bits' else 0x04
+        c = n.content
+        empty = (c == b'' if kind != 'bits' else c in (b'', b'\x00'))
+        form = rng.choice(['one', 'one', 'two', 'none' if empty else 'one'])
+        if form == 'none':
+            kids = []                                   # the empty string as a constructed encoding without segments
+        elif form == 'two' and len(c) >= (3 if kind == 'bits' else 2):
+            if kind == 'bits':                          # first segment: whole octets, no unused bits
+                kids = [dertree.Node(t, [], False, content=b'\x00' + c[1:2]), dertree.Node(t, [], False, content=c[:1] + c[2:])]
+            else:
+                kids = [dertree.Node(t, [], False, content=c[:1]), dertree.Node(t, [], False, content=c[1:])]
+        else:
+            kids = [dertree.Node(t, [], False, content=c)]
+        n.cons, n.kids, n.content = True, kids, b''
+        what = 'primitive -> segmented string (%s segment%s)' % ({'none': 'no', 'two': 'two'}.get(form, 'one'), '' if form == 'one' else 's')
     return root.ser(), what
 
 
@@ -86,6 +98,9 @@ def grid_cases(ctx):
             vs = [g.val(E) for _ in range(3)]
             if L == ('bool',):
                 vs = [('b', True)] * 3
+            elif L[0] == 'octs': vs[1] = ('o', b'')          # the empty string: its constructed form may have no segment at all
+            elif L[0] == 'bits': vs[1] = ('bits', ())
+            elif L[0] == 'str' and L[1] not in ('UTCTime', 'GeneralizedTime'): vs[1] = ('chars', '')
             shapes = [(E, vs[0]), (('seqof', E), ('list', vs)), (('setof', E), ('list', vs)),
                       (('seq', [('req', ('int',)), ('req', E), ('req', ('exp', (128, 0, 9), ('seq', [('req', E), ('opt', ('null',))])))]),
                        ('rec', [('i', 5), vs[0], ('rec', [vs[1], None])]))]
